@@ -979,6 +979,8 @@ func (f *frame) execCall(instr ssa.Instruction, com *ssa.CallCommon, st *state, 
 	abs, callee := f.calleeName(com)
 	args, binds := f.callArgs(com, callee)
 	f.curOrd = f.ordinalOf(com, pos)
+	f.curCall = instr
+	defer func() { f.curCall = nil }()
 	return f.applyCall(abs, callee, args, binds, st, reach, pos, rt)
 }
 
@@ -987,7 +989,13 @@ func (f *frame) applyCall(abs string, callee *ssa.Function, args, binds []*sym, 
 	rel := f.relCallee(abs)
 	vc.callsSeen[rel]++
 	c := vc.w.contractOf(abs)
-	if !(c == nil && f.smallHelper(callee) && vc.depth < 3) {
+	loopHelper := c == nil && vc.splice != nil && vc.splice.helpers[callee] && f.fn == vc.fn && !f.inlined && f.curCall != nil
+	if loopHelper {
+		if _, planned := vc.splice.callBase[f.curCall]; !planned {
+			loopHelper = false
+		}
+	}
+	if !(c == nil && (loopHelper || f.smallHelper(callee)) && vc.depth < 3) {
 		// a helper executed in place is not a call boundary: the environment acts where the calls inside it are
 		f.interfere(st, reach)
 	}
@@ -1000,6 +1008,11 @@ func (f *frame) applyCall(abs string, callee *ssa.Function, args, binds []*sym, 
 	case c == nil && callee != nil && callee.Parent() != nil && len(callee.Blocks) > 0 && vc.depth < 3:
 		res = f.inlineCall(callee, args, binds, st, reach, rt)
 	case c != nil && c.Inline && callee != nil && len(callee.Blocks) > 0 && vc.depth < 3:
+		res = f.inlineCall(callee, args, binds, st, reach, rt)
+	case loopHelper && vc.depth < 3:
+		// a helper that now holds loops of this function's contract: executed in place, its loops borrowed (loops.go)
+		f.borrowBase = vc.splice.callBase[f.curCall]
+		f.borrowNext = true
 		res = f.inlineCall(callee, args, binds, st, reach, rt)
 	case c == nil && f.smallHelper(callee) && vc.depth < 3:
 		// a small loop-free function of the same package that nobody gave a contract to (typically a helper
@@ -1274,6 +1287,13 @@ func (f *frame) inlineCall(callee *ssa.Function, args, binds []*sym, st *state, 
 	sub := vc.newFrame(callee)
 	sub.inlined = true
 	sub.oldSt = f.oldSt
+	if f.borrowNext {
+		f.borrowNext = false
+		sub.borrow = true
+		for _, li := range sub.loops {
+			li.ordinal += f.borrowBase
+		}
+	}
 	if len(args) != len(callee.Params) {
 		fail("inline %s: %d args for %d params", callee.String(), len(args), len(callee.Params))
 	}
@@ -1290,7 +1310,11 @@ func (f *frame) inlineCall(callee *ssa.Function, args, binds []*sym, st *state, 
 	work := st.clone()
 	sub.run(work, reach)
 	exitReach, results, exitSt := sub.mergeReturns()
-	_ = exitReach
+	if exitSt != nil {
+		// control continues after the call only if the callee returned: what holds on its way out (the exit
+		// condition of a loop, the branch that reaches the return) holds for the caller from here on
+		vc.assume(reach, exitReach)
+	}
 	if exitSt == nil {
 		// callee never returns (panics on every path)
 		return f.freshOf(rt, "noret", st, reach)
@@ -1558,6 +1582,9 @@ func (vc *FnVC) topEnv(f *frame, st *state) *env {
 	e := top.env(st, top.oldSt)
 	// names of the current (possibly inlined closure) frame shadow nothing but add free variables
 	if f != top {
+		if f.fn != nil && f.fn.Parent() == nil {
+			e.sub, e.subBlock, e.subIdx = f, f.curBlock, f.curIdx
+		}
 		for i, fv := range f.fn.FreeVars {
 			_ = i
 			if s, ok := f.vals[fv]; ok {
